@@ -146,7 +146,7 @@ impl Context {
         Context {
             input: self.input().clone(),
             results,
-            parent_inputs: Vec::new(),
+            parent_inputs: self.parent_inputs.clone(),
             variables: self.variables.clone(),
             definitions: self.definitions.clone(),
             input_context: self.input_context.clone(),
@@ -162,7 +162,7 @@ impl Context {
         Context {
             input: self.input().clone(),
             results: self.results.clone(),
-            parent_inputs: Vec::new(),
+            parent_inputs: self.parent_inputs.clone(),
             variables: Rc::new(variables),
             definitions: self.definitions.clone(),
             input_context: self.input_context.clone(),
@@ -173,7 +173,7 @@ impl Context {
         Context {
             input: self.input().clone(),
             results: self.results.clone(),
-            parent_inputs: Vec::new(),
+            parent_inputs: self.parent_inputs.clone(),
             variables: variables.clone(),
             definitions: self.definitions.clone(),
             input_context: self.input_context.clone(),
@@ -189,7 +189,7 @@ impl Context {
         Context {
             input: self.input().clone(),
             results: self.results.clone(),
-            parent_inputs: Vec::new(),
+            parent_inputs: self.parent_inputs.clone(),
             variables: self.variables.clone(),
             definitions: Rc::new(definitions),
             input_context: self.input_context.clone(),
@@ -200,7 +200,7 @@ impl Context {
         Context {
             input: self.input().clone(),
             results: self.results.clone(),
-            parent_inputs: Vec::new(),
+            parent_inputs: self.parent_inputs.clone(),
             variables: self.variables.clone(),
             definitions: definitions.clone(),
             input_context: self.input_context.clone(),
